@@ -288,11 +288,20 @@ pub fn make_env(tier: Tier, strict: bool) -> Env {
     }
 }
 
+/// Where evidence and newly found failures are written (default /verif; the mutant
+/// runner points this at a scratch directory so that committed evidence is untouched)
+pub fn out_dir() -> String {
+    std::env::var("VERIF_OUT_DIR").unwrap_or_else(|_| VERIF_DIR.to_owned())
+}
+
 fn save_replay(id: &str, fail: &Fail) -> String {
-    let dir = format!("{VERIF_DIR}/regressions/{id}");
+    let dir = format!("{}/regressions/{id}", out_dir());
     let _ = std::fs::create_dir_all(&dir);
     let mut v = fail.case.clone();
     if let Value::Object(m) = &mut v {
+        if let Ok(t) = std::env::var("VERIF_TIER_NAME") {
+            m.insert("tier".into(), json!(t));
+        }
         m.insert("property".into(), json!(id));
         m.insert("message".into(), json!(fail.msg));
     } else {
@@ -383,6 +392,12 @@ thread_local! {
 
 fn run_shard(p: &dyn Prop, env: &Env, shard: usize, nshards: usize, started: Arc<AtomicU64>, t0: Instant) -> Shard {
     let mut stats = Stats::default();
+    let case_log = std::env::var("VERIF_CASE_LOG").ok().map(|d| format!("{d}/shard-{shard}.case"));
+    let log_case = |what: &str| {
+        if let Some(f) = &case_log {
+            let _ = std::fs::write(f, what);
+        }
+    };
     let mark = |started: &AtomicU64| {
         started.store(t0.elapsed().as_millis() as u64 + 1, Ordering::Relaxed);
     };
@@ -394,6 +409,7 @@ fn run_shard(p: &dyn Prop, env: &Env, shard: usize, nshards: usize, started: Arc
             return Shard { stats, fail: None };
         }
         mark(&started);
+        log_case(&format!("{{\"kind\":\"enum\",\"idx\":{idx},\"tier\":\"{}\"}}", env.tier.name()));
         if let Err(f) = p.enum_case(env, idx, &mut stats) {
             env.stop.store(true, Ordering::Relaxed);
             started.store(0, Ordering::Relaxed);
@@ -436,6 +452,7 @@ fn run_shard(p: &dyn Prop, env: &Env, shard: usize, nshards: usize, started: Arc
             }
         };
         mark(&started);
+        log_case(&format!("{{\"kind\":\"bytes\",\"hex\":\"{}\"}}", hex(&bytes)));
         if let Err(f) = p.random(env, &bytes, &mut stats) {
             env.stop.store(true, Ordering::Relaxed);
             if f.harness_error {
@@ -476,6 +493,7 @@ pub fn nshards() -> usize {
 
 /// Run a property check; returns the process exit code.
 pub fn run_check(p: &dyn Prop, tier: Tier) -> i32 {
+    std::env::set_var("VERIF_TIER_NAME", tier.name());
     let env = make_env(tier, false);
     let t0 = Instant::now();
     let id = p.id();
@@ -637,7 +655,7 @@ fn write_evidence(p: &dyn Prop, env: &Env, st: &Stats, wall: f64, violations: i6
         "wall_s": wall,
         "violations": violations,
     });
-    let dir = format!("{VERIF_DIR}/evidence");
+    let dir = format!("{}/evidence", out_dir());
     let _ = std::fs::create_dir_all(&dir);
     let path = format!("{dir}/{id}.json");
     if let Err(e) = std::fs::write(&path, serde_json::to_string_pretty(&ev).unwrap()) {
@@ -647,7 +665,7 @@ fn write_evidence(p: &dyn Prop, env: &Env, st: &Stats, wall: f64, violations: i6
 
 /// Replay one file in strict mode; exit code 0 (holds), 1 (violation), 2 (harness)
 pub fn run_replay(p: &dyn Prop, file: &str) -> i32 {
-    let env = make_env(Tier::Quick, true);
+    let mut env = make_env(Tier::Quick, true);
     let s = match std::fs::read_to_string(file) {
         Ok(s) => s,
         Err(e) => {
@@ -662,6 +680,9 @@ pub fn run_replay(p: &dyn Prop, file: &str) -> i32 {
             return 2;
         }
     };
+    if v.get("tier").and_then(|t| t.as_str()) == Some("thorough") {
+        env.tier = Tier::Thorough;
+    }
     let mut st = Stats::default();
     match replay_case(p, &env, &v, &mut st) {
         Ok(()) => {
